@@ -29,6 +29,25 @@ def construct_key(rm: oracle.RefModel, name: str) -> str:
     for k in ("mod", "cond", "ccond", "not", "and", "or", "fn:floor", "fn:abs", "pow"):
         if k in ops:
             tags.append(k.replace("fn:", ""))
+    # two shapes of sympy's constant handling inside Mod that are recorded findings (kept narrow on purpose):
+    # a closed Mod whose dividend is an unevaluated sum of literals somewhere below the failing assignment, and a Mod of
+    # "something minus a literal" by a literal at the top of the failing assignment (sympy adds the modulus to the constant)
+    def closed(x):
+        return not sexp.fv(x)
+
+    def walk(x, seen):
+        if x[0] == "mod" and closed(x[1]) and closed(x[2]) and x[1][0] in ("add", "sub"):
+            return True
+        if x[0] == "var" and x[1] in rm.assigns and x[1] not in seen:
+            seen.add(x[1])
+            return walk(rm.assigns[x[1]], seen)
+        if x[0] in ("num", "pi", "int", "var"):
+            return False
+        return any(walk(y, seen) for y in (x[2:] if x[0] in ("fn", "rel", "ccond", "call") else x[1:]) if isinstance(y, tuple))
+    if walk(e, {name}):
+        return "closed-mod-of-sum"
+    if e[0] == "mod" and closed(e[2]) and e[1][0] in ("sub", "add") and not closed(e[1]) and any(closed(y) for y in e[1][1:]):
+        return "mod-of-shifted"
     return "+".join(tags) or "arith"
 
 
